@@ -6,7 +6,7 @@ Stores the result under /verif/seeded/<name>/ (patch.diff, demo, meta.json)."""
 import glob, json, os, shutil, subprocess, sys, time
 
 V = os.path.dirname(os.path.dirname(os.path.abspath(__file__)))
-WT = "/tmp/wt-seedeval"
+WT = os.environ.get("SEEDEVAL_WT", "/tmp/wt-seedeval")
 ENV = dict(os.environ, GOFLAGS="-mod=mod", GOPROXY="off")
 
 
@@ -66,7 +66,7 @@ def main():
             meta["checks"].setdefault(chk, []).append({"seed": s, "exit": rc, "violations": len(viol), "signatures": sigs[:4], "wall_s": round(time.time() - t0)})
             print(name, chk, "seed", s, "exit", rc, "violations", len(viol), sigs[:2])
     sh("git checkout -- . && git clean -fdq", cwd=WT)
-    shutil.rmtree(os.path.join(V, "replays"), ignore_errors=True)
+    pass
     finish(name, seed_dir, demos, meta)
 
 
